@@ -149,6 +149,27 @@ theorem translated_isRunning_ctor_eq_model (E : Env) (s : GenP.PS) :
   · by_cases h : s.pid = 0 <;> simp [GenP.isRunning, h, flagsOf, Proc.step]
   · exact ⟨_, rfl, by simp [flagsOf, Proc.init], rfl⟩
 
+/-- `Process::exit(code)`: the one system call is `_exit` with the caller's code (as `int`), whatever the object holds --
+    the status a parent sees is `code & 255` (defect 0009 passed 0) -/
+theorem translated_exit_passes_code (E : Env) (s : GenP.PS) :
+    ∃ s', GenP.exit E s = some (.ret () s') ∧ s'.k.trace = s.k.trace ++ [.exit (toInt32 s.exitCode)] ∧
+      (s.exitCode < 256 → toInt32 s.exitCode = s.exitCode) := by
+  refine ⟨_, rfl, rfl, ?_⟩
+  intro h
+  unfold toInt32
+  have h1 : s.exitCode % 4294967296 = s.exitCode := Nat.mod_eq_of_lt (by omega)
+  rw [h1]; simp; omega
+
+/-- `setEnvironmentVariable(name, value)` as translated is the model's function: for every environment, name and value
+    the new environment and the returned Boolean are those of `Nstd.Args.setEnvironmentVariable` (an empty value removes the
+    variable and reports success -- defect 0006 --, an invalid name is refused), given POSIX `setenv` / `unsetenv` -/
+theorem translated_setEnvironmentVariable_eq_model (E : Env) (s : GenP.ES) :
+    ∃ s', GenP.setEnvironmentVariable E s = some (.ret (setEnvironmentVariable s.env s.name s.value).2 s') ∧
+      s'.env = (setEnvironmentVariable s.env s.name s.value).1 ∧ s'.name = s.name ∧ s'.value = s.value := by
+  obtain ⟨n, v, e⟩ := s
+  unfold GenP.setEnvironmentVariable GenP.setEnvironmentVariable_b1 setEnvironmentVariable envUnset envSet
+  by_cases hv : v.isEmpty = true <;> by_cases hn : validName n = true <;> simp [hv, hn]
+
 -- the order of the system calls of join() on an object holding all three ends (descriptors 5, 6, 7; pid 42)
 example : (match GenP.join ⟨[], [], []⟩ ⟨5, 6, 7, 42, 0, 0, 0, 0, ⟨[], [some (3 * 256)]⟩⟩ with
     | some (.ret true s) => some (s.k.trace, s.exitCode) | _ => none) =
